@@ -183,7 +183,7 @@ func init() { historyOracles["C09"] = func() oracle { return &c09{} } }
 var c09Weights = map[string]int{
 	"create": 6, "openfile": 2, "write": 8, "writestring": 2, "close": 8,
 	"mkdir": 5, "mkdirall": 2, "remove": 3, "removeall": 2, "rename": 5,
-	"chmod": 2, "chown": 3, "chtimes": 3, "symlink": 2, "reopen": 1,
+	"chmod": 2, "chown": 3, "chtimes": 3, "symlink": 2, "reopen": 1, "rebuild": 1,
 	"arch_archive": 2, "arch_update": 2, "arch_delete": 1, "arch_move": 1,
 }
 
@@ -217,7 +217,15 @@ func TestC09(t *testing.T) {
 				{Op: "remove", Path: f1},
 			}
 		}
-		runCase(t, "C09", cfg, nil, &c09{}, world.Opts{}, func(x *hctx, i int) (hist.Step, bool) {
+		opts := world.Opts{}
+		var params hist.Params
+		if rapid.IntRange(0, 3).Draw(t, "tape-like-writer") == 0 {
+			// the write path of a tape drive: record-sized buffered writes, padding to whole records
+			opts.TapeLikeWriter = true
+			cfg = tapeLikeCfg(cfg)
+			params = hist.Params{"tape_like_writer": true}
+		}
+		runCase(t, "C09", cfg, params, &c09{}, opts, func(x *hctx, i int) (hist.Step, bool) {
 			if i < len(pro) {
 				return pro[i], true
 			}
